@@ -1,4 +1,4 @@
-use crate::nodes::{Block, DoStatement, Expression, IfExpression, IfStatement, Statement};
+use crate::nodes::{Block, DoStatement, Expression, IfExpression, IfStatement, Statement, Token};
 use crate::process::{DefaultVisitor, Evaluator, NodeProcessor, NodeVisitor};
 use crate::rules::{
     Context, FlawlessRule, RuleConfiguration, RuleConfigurationError, RuleMetadata, RuleProperties,
@@ -75,6 +75,11 @@ impl IfFilter {
             if !keep_next_branches {
                 if let Some(block_replacer) = replace_else_with {
                     if_statement.set_else_block(block_replacer);
+                    // the block comes from an earlier branch: the original `else` token (if
+                    // any) sits after it in the code
+                    if let Some(tokens) = if_statement.mutate_tokens() {
+                        tokens.r#else = None;
+                    }
                 } else {
                     if_statement.take_else_block();
                 }
@@ -161,6 +166,12 @@ impl IfFilter {
                 if !keep_next_branches {
                     *if_expression.mutate_else_result() =
                         replace_else_with.unwrap_or_else(Self::result_placeholder);
+                    // the result comes from an earlier branch: the original `else` token sits
+                    // after it in the code
+                    if let Some(mut tokens) = if_expression.get_tokens().cloned() {
+                        tokens.r#else = Token::from_content("else");
+                        if_expression.set_tokens(tokens);
+                    }
                 }
                 None
             }
